@@ -98,7 +98,11 @@ func extractFromPath(path *Path, data []byte, optFuncs ...DecodeOptionFunc) ([][
 	ctx.Buf = src
 	ctx.Option.Flags = 0
 	ctx.Option.Flags |= decoder.PathOption
-	ctx.Option.Path = path.path
+	// the decoders advance Path.node while they descend: evaluate on a copy so that the
+	// caller's Path is never modified (it stays reusable after an error and shareable
+	// between goroutines)
+	pathCopy := *path.path
+	ctx.Option.Path = &pathCopy
 	for _, optFunc := range optFuncs {
 		optFunc(ctx.Option)
 	}
